@@ -118,6 +118,7 @@ func init() {
 	checkDefs["C01"] = &CheckDef{Prop: "C01", Enable: []string{"C01."},
 		Instances: func(tier string) []Instance {
 			out := append(append(arithInstances(tier, "zero"), p0Instances(tier)...), ctxParseInstances(tier, "zero")...)
+			out = append(out, farGapInstances(tier, "zero")...)
 			return append(out, limitInstances(tier)...)
 		},
 		PathModels: true, PathModelSample: 40, Stubs: stubsLevelA, Bounds: boundsArith, Outside: outsideArith, Assumptions: assumeCommon,
@@ -136,6 +137,7 @@ func init() {
 				}
 			}
 			out = append(out, ctxParseInstances(tier, "zero")[:4]...)
+			out = append(out, farGapInstances(tier, "zero")...)
 			out = append(out, limitInstances(tier)...)
 			// Context.Reduce flags, and the Division*/InvalidOperation conditions on special operands
 			for _, m := range []string{"half_even", "floor"} {
@@ -155,6 +157,9 @@ func init() {
 		Instances: func(tier string) []Instance {
 			out := append(append(arithInstances(tier, "zero"), divIntInstances(tier, "zero")...), quantizeInstances(tier, "zero")...)
 			out = append(out, ctxParseInstances(tier, "zero")...)
+			// Context.Reduce beyond the uint64 coefficient path, and on heap-backed coefficients
+			out = append(out, inst("VerifReduce", 4, p("op", "ctx", "K", 21, "W", 21, "Pmin", 20, "regime", 0, "traps", "zero", "mode", "half_even", "maxDigits", 30)))
+			out = append(out, levelBDecimalInstances("reduce", "reduce_inplace")...)
 			return append(out, compositeInstances(tier)...)
 		},
 		PathModels: true, PathModelSample: 40, Stubs: stubsLevelA, Bounds: boundsArith, Outside: outsideArith, Assumptions: assumeCommon}
@@ -191,7 +196,7 @@ func init() {
 	checkDefs["C10"] = &CheckDef{Prop: "C10", Enable: []string{"C10."},
 		Instances:  func(tier string) []Instance { return divIntInstances(tier, "zero") },
 		PathModels: true, PathModelSample: 40, Stubs: stubsLevelA, Assumptions: assumeCommon,
-		Bounds:        map[string]interface{}{"quick": "dividend K=3 digits, divisor coefficient enumerated 1..9, W=2 (exponent gap up to 4), modes half_even/floor/up", "thorough": "K=4, divisor 1..99, W=3, 9 modes"},
+		Bounds:        map[string]interface{}{"quick": "dividend K=3 digits, divisor coefficient enumerated 1..9, W=2 (exponent gap up to 4), modes half_even/floor/up", "thorough": "K=3, divisor 1..99, W=2, modes half_even/floor/up/05up"},
 		Outside:       []string{"divisor coefficients above Kd digits", "exponent gaps beyond 2W (the upscale error path for gaps > 100000 is not exercised)"},
 		RequireCovers: []string{"quoint.finite", "quoint.impossible", "rem.rounded"}}
 	boundsTwoRun := map[string]interface{}{
@@ -205,6 +210,14 @@ func init() {
 			}
 			// iterative functions: destination == operand on concrete operands, every trap set
 			out = append(out, compositeInstances(tier)...)
+			// BigInt methods at Level B (real representation): receiver aliasing an operand
+			for _, op := range []string{"add", "mul", "quo", "rem", "quorem"} {
+				for _, pat := range []string{"zx", "zy"} {
+					i := inst("VerifBigBinary", 3, p("op", op, "pat", pat, "maxheap", 1, "feasTimeout", 300))
+					i.LevelB = true
+					out = append(out, i)
+				}
+			}
 			return out
 		},
 		PathModels: true, PathModelSample: 15, Stubs: stubsLevelA, Assumptions: assumeCommon, Bounds: boundsTwoRun,
@@ -217,6 +230,13 @@ func init() {
 			// parsing into two arbitrary destinations
 			for _, n := range []int{3, 4, 5} {
 				out = append(out, inst("VerifParseDest", 2*n, p("n", n, "Pmin", 1, "regime", 0, "traps", "zero", "mode", "half_even", "K", 3, "W", 3)))
+			}
+			// Level B: a copy keeps nothing of the destination's previous representation
+			out = append(out, levelBDecimalInstances("set")...)
+			for _, pat := range []string{"none"} {
+				i := inst("VerifBigUnary", 1, p("op", "set", "pat", pat, "maxheap", 2, "feasTimeout", 300))
+				i.LevelB = true
+				out = append(out, i)
 			}
 			return out
 		},
@@ -241,9 +261,10 @@ func init() {
 				i.LevelB = true
 				out = append(out, i)
 			}
+			out = append(out, levelBDecimalInstances("cmp", "reduce")...)
 			return out
 		},
-		PathModels: false, Stubs: stubsLevelA, Assumptions: append([]string{
+		PathModels: true, PathModelSample: 6, Stubs: stubsLevelA, Assumptions: append([]string{
 			"reduction: two concurrent calls can race or influence each other only through memory both can reach (shared Context, shared operands, package-level state); a data race needs a write to such memory. The check decides that no feasible path of any encoded method stores into a context, operand or package-level object; under the Go memory model every interleaving is then race-free and each call reads what it reads alone",
 			"math/big does not write its operands and fmt/strconv are goroutine-safe (stub boundary)"}, assumeCommon...), Bounds: boundsTwoRun,
 		Outside: []string{"composite functions (Sqrt..Pow) and their ErrDecimal/WithPrecision plumbing", "Level-B BigInt internals: operands of Add/Sub/Mul/Quo/Rem/Cmp/CmpAbs/Sign/IsInt64/... are bit-for-bit unchanged from arbitrary valid representations (same harnesses as C16)"}}
@@ -283,6 +304,7 @@ func init() {
 			for _, o := range []string{"both", "integ", "frac"} {
 				out = append(out, inst("VerifModf", 2, p("outs", o, "K", 6, "W", 8, "regime", 0)))
 			}
+			out = append(out, levelBDecimalInstances("newwithbigint")...)
 			return out
 		},
 		PathModels: true, PathModelSample: 60, Stubs: stubsLevelA, Assumptions: assumeCommon,
@@ -304,6 +326,8 @@ func init() {
 			for _, m := range modes {
 				out = append(out, inst("VerifReduce", 4, p("op", "ctx", "K", K, "W", W, "Pmin", 1, "regime", 0, "traps", "zero", "mode", m)))
 			}
+			// the reduced value and the count are delivered also alongside a trapped condition
+			out = append(out, inst("VerifReduce", 4, p("op", "ctx", "K", 3, "W", 3, "Pmin", 1, "regime", 0, "traps", "sym", "mode", "half_even")))
 			return out
 		},
 		PathModels: true, PathModelSample: 40, Assumptions: assumeCommon,
@@ -354,7 +378,7 @@ func init() {
 			}
 			return out
 		},
-		PathModels: false, Stubs: stubsLevelA, Assumptions: assumeCommon,
+		PathModels: true, PathModelSample: 10, Stubs: stubsLevelA, Assumptions: assumeCommon,
 		Bounds:        map[string]interface{}{"quick": "eight modes run on the same symbolic operands in one path space: Round K=4/W=5, Add/Sub K=2/W=2, Mul K=3/W=3, Quo K=2 (divisor 1..9), Quantize K=3, RoundToIntegralExact K=4; two-input relations at K=2..3 under half_even and floor", "thorough": "one more digit and exponent step; relations under all modes"},
 		Outside:       []string{"larger coefficients", "results that are NaN (Quantize invalid) or hit a system limit are skipped", "an exact zero sum may differ in sign between round-floor and the other modes (GDA rule, asserted in C01/C08)"},
 		RequireCovers: []string{"modes.exact", "modes.inexact"}}
@@ -380,7 +404,7 @@ func init() {
 	formatInstances := func(tier string) []Instance {
 		K := 4
 		if tier == "thorough" {
-			K = 8
+			K = 6
 		}
 		var out []Instance
 		for _, f := range []string{"G", "g", "E", "e", "f"} {
@@ -465,10 +489,11 @@ func init() {
 				out = append(out, inst("VerifFormat", 3, p("fmt", f, "via", "text", "K", 3, "elo", -9, "ehi", 4)))
 			}
 			out = append(out, inst("VerifInt64", 3, p("K", 20, "W", 20)))
+			out = append(out, levelBDecimalInstances("reduce", "reduce_inplace", "cmp")...)
 			out = append(out, compositeInstances(tier)...)
 			return out
 		},
-		PathModels: false, Stubs: stubsLevelA, Assumptions: assumeCommon,
+		PathModels: true, PathModelSample: 5, Stubs: stubsLevelA, Assumptions: assumeCommon,
 		Bounds: map[string]interface{}{"quick": "panic obligations (nil dereference, index/slice bounds, division by zero, explicit panic, failed type assertion, math/big documented panics) on every SSA instruction of every explored path of: the parser on all ASCII strings up to 6 bytes (and numeric-alphabet strings of 7), every operation on every combination of special operands with zero precision allowed, finite operands in three exponent regimes (centre, both package limits), real NumDigits up to 150 bits both signs, Condition.String for all 2^12 condition sets, Format with every verb byte, accessors on all forms, iterative functions on concrete operands under every trap set with an execution bound of 6e7 SSA instructions (hang check)",
 			"thorough": "NumDigits to 1100 bits, more concrete operands for the iterative functions"},
 		Outside: []string{"the iterative functions on symbolic operands (their loops are executed for the listed concrete operands only)", "JSON/Gob/Scan(fmt.ScanState) wrappers of BigInt (pass-through to math/big)",
@@ -493,6 +518,9 @@ func init() {
 				}
 			}
 			out = append(out, lb("VerifBigBinary", 8, "op", "quorem", "pat", "none", "maxheap", mh-1))
+			out = append(out, lb("VerifBigBinary", 8, "op", "quorem", "pat", "zx", "maxheap", mh-1))
+			out = append(out, lb("VerifBigBinary", 8, "op", "quorem", "pat", "zy", "maxheap", mh-1))
+			out = append(out, levelBDecimalInstances("cmp", "reduce", "reduce_inplace")...)
 			for _, op := range []string{"and", "or", "xor", "andnot", "div", "mod"} {
 				for _, pat := range []string{"none", "zx", "zy", "zxy"} {
 					out = append(out, lb("VerifBigBinary", 2, "op", op, "pat", pat, "maxheap", mh))
@@ -681,6 +709,33 @@ func compositeInstances(tier string) []Instance {
 	return out
 }
 
+// farGapInstances: Add/Sub with an exponent gap beyond the 128-entry power-of-ten table
+// (gap 125..137), where the smaller operand lies wholly below the larger one's digits.
+func farGapInstances(tier string, traps string) []Instance {
+	var out []Instance
+	modes := []string{"half_even", "up"}
+	if tier == "thorough" {
+		modes = allModes
+	}
+	for _, m := range modes {
+		base := p("Pmin", 1, "regime", 0, "traps", traps, "mode", m, "K", 2, "W", 3, "ybase", -131, "maxDigits", 150)
+		out = append(out, inst("VerifAdd", 6, base, "sub", 0))
+		out = append(out, inst("VerifAdd", 6, base, "sub", 1))
+	}
+	return out
+}
+
+// levelBDecimalInstances: Decimal-level code on coefficients in arbitrary representations.
+func levelBDecimalInstances(whats ...string) []Instance {
+	var out []Instance
+	for _, w := range whats {
+		i := inst("VerifDecimalB", 4, p("what", w, "maxheap", 1, "feasTimeout", 300, "hangcheck", 1, "maxInstr", 3000000))
+		i.LevelB = true
+		out = append(out, i)
+	}
+	return out
+}
+
 // limitInstances: operands at the package exponent limits (regime 1: near -100000 with
 // MinExponent = -100000; regime 2: near +100000 with MaxExponent = 100000): system
 // conditions are raised only when the exact value really leaves the limits.
@@ -710,8 +765,8 @@ func divIntInstances(tier string, traps string) []Instance {
 		}
 		return out
 	}
-	for _, m := range allModes {
-		out = append(out, inst("VerifDivInt", 12, base, "mode", m, "K", 4, "Kd", 2, "W", 3))
+	for _, m := range []string{"half_even", "floor", "up", "05up"} {
+		out = append(out, inst("VerifDivInt", 12, base, "mode", m, "K", 3, "Kd", 2, "W", 2))
 	}
 	return out
 }
